@@ -1,0 +1,14 @@
+//go:build verif
+
+package desync
+
+// VerifYield, when set by the verification harness, is called at the
+// instrumented sites with the site's name. It lets the harness cancel a
+// context or fail a store at an exact point and record event traces.
+var VerifYield func(site string)
+
+func verifYield(site string) {
+	if f := VerifYield; f != nil {
+		f(site)
+	}
+}
